@@ -9,11 +9,13 @@ HInit == Init /\ hist = <<>> /\ cfg0 = cfg /\ tainted = FALSE
 Rec(ev, f, v) == [ev |-> ev, f |-> f, d |-> f, c |-> f, v |-> v]
 \* F-C10-e trigger: a file is created while a processed source that requires it is in its error state
 Trigger(f) == \E i \in Idx : Live(i) /\ slots[i].st = "err" /\ f \in Requires[slots[i].p]
+\* F-C10-f trigger: a directory is removed while a work item OUTSIDE it depends on one of its files
+Trigger2(d) == \E i \in Idx : Live(i) /\ DirOf[slots[i].p] # d /\ \E f \in Files : DirOf[f] = d /\ i \in extmap[f]
 HNext ==
   \/ \E f \in Files : Edit(f) /\ hist' = Append(hist, Rec("edit", f, inp'[f])) /\ UNCHANGED <<cfg0, tainted>>
   \/ \E f \in Files : Add(f) /\ hist' = Append(hist, Rec("add", f, inp'[f])) /\ tainted' = (tainted \/ Trigger(f)) /\ UNCHANGED cfg0
   \/ \E f \in Files : RemoveFile(f) /\ hist' = Append(hist, Rec("rmfile", f, 0)) /\ UNCHANGED <<cfg0, tainted>>
-  \/ \E d \in Dirs : RemoveDir(d) /\ hist' = Append(hist, Rec("rmdir", d, 0)) /\ UNCHANGED <<cfg0, tainted>>
+  \/ \E d \in Dirs : RemoveDir(d) /\ hist' = Append(hist, Rec("rmdir", d, 0)) /\ tainted' = (tainted \/ Trigger2(d)) /\ UNCHANGED cfg0
   \/ ChangeConfig /\ hist' = Append(hist, Rec("config", cfg', 0)) /\ UNCHANGED <<cfg0, tainted>>
   \/ Process /\ hist' = Append(hist, Rec("process", "", 0)) /\ UNCHANGED <<cfg0, tainted>>
 HSpec == HInit /\ [][HNext]_<<vars, hist, cfg0, tainted>>
